@@ -144,6 +144,24 @@ def check(run: Run) -> None:
                         explained.add(id(it))
                     run.report("C02/leb128-boundary", {**c.describe(), "ops": [{"op": "parse+dump", "data": d.hex(), **prob}]})
 
+    # wchar arrays holding characters outside the BMP (surrogate pairs: fewer characters than 16-bit units)
+    w_text = "struct main { wchar name[4]; uint8 t; wchar z[]; uint8 u; };"
+    for s_ in ("ab\U0001F600", "\U0001F600\U00010000", "abcd"):
+        for endian, codec in (("<", "utf-16-le"), (">", "utf-16-be")):
+            for compiled in (False, True):
+                d = s_.encode(codec) + b"\x07" + "x\U0001F600".encode(codec) + b"\x00\x00\x09"
+                c = Case(w_text, endian=endian, compiled=compiled)
+                c.ops = [("parse", d, 0), ("dump", d, 0)]
+                its = build_items(c)
+                items += its
+                n_oracle += 1
+                prob = fidelity_problem(c._cs, c._T, d, w_text)
+                if prob:
+                    failures += 1
+                    for it in its:
+                        explained.add(id(it))
+                    run.report("C02/wchar-surrogates", {**c.describe(), "ops": [{"op": "parse+dump", "data": d.hex(), **prob}]})
+
     mism = run_items(run, items)
     bad = {id(m) for m in mism}
     for its_, rep in pending:
